@@ -482,44 +482,62 @@ Fixpoint mark_open (t : nat) (res : res) (l : list ocall) : list ocall :=
   | x :: r => if oc_t x =? t then OC t (oc_op x) (Some res) :: r else x :: mark_open t res r
   end.
 
-(* Wing-Gong search, linearizing lazily: only when a return forces it.  Out of fuel = inconclusive = true. *)
-Fixpoint lin (fuel : nat) (s : state) (open : list ocall) (evs : list cev) : bool :=
-  match fuel with
-  | 0 => true
-  | S f =>
+(* Wing-Gong search, linearizing lazily: only when a return forces it.  The search is bounded in
+   depth (fuel) and in total work (budget, one unit per node visited); running out of either is
+   inconclusive and reported as such, never as a difference. *)
+Inductive lres := LYes | LNo | LOut.
+
+Fixpoint try_all (f : ocall -> nat -> lres * nat) (l : list ocall) (b : nat) : lres * nat :=
+  match l with
+  | [] => (LNo, b)
+  | x :: r => match f x b with
+              | (LNo, b') => try_all f r b'
+              | other => other
+              end
+  end.
+
+Fixpoint lin (fuel : nat) (s : state) (open : list ocall) (evs : list cev) (budget : nat) : lres * nat :=
+  match fuel, budget with
+  | 0, _ => (LOut, budget)
+  | _, 0 => (LOut, 0)
+  | S f, S b =>
       match evs with
-      | [] => true
-      | EGot _ _ :: r => lin f s open r
-      | ECall t c :: r => lin f s (OC t c None :: open) r
+      | [] => (LYes, b)
+      | EGot _ _ :: r => lin f s open r b
+      | ECall t c :: r => lin f s (OC t c None :: open) r b
       | ERet t res :: r =>
           match find_open t open with
-          | None => false
+          | None => (LNo, b)
           | Some oc =>
               match oc_lin oc with
-              | Some res' => res_eqb res res' && lin f s (remove_open t open) r
+              | Some res' => if res_eqb res res' then lin f s (remove_open t open) r b else (LNo, b)
               | None =>
-                  existsb (fun oc' =>
+                  try_all (fun oc' b' =>
                     match oc_lin oc' with
-                    | Some _ => false
+                    | Some _ => (LNo, b')
                     | None =>
                         match atomic s (oc_op oc') with
-                        | None => false
+                        | None => (LNo, b')
                         | Some (s', res') =>
                             if oc_t oc' =? t
-                            then res_eqb res res' && lin f s' (remove_open t open) r
-                            else lin f s' (mark_open (oc_t oc') res' open) evs
+                            then if res_eqb res res' then lin f s' (remove_open t open) r b' else (LNo, b')
+                            else lin f s' (mark_open (oc_t oc') res' open) evs b'
                         end
-                    end) open
+                    end) open b
               end
           end
       end
   end.
 
 Definition lin_limit : nat := 90.
+Definition lin_budget : nat := 4000.
+
+Definition lin_case (c : ccase) : lres :=
+  fst (lin 400 (init (cc_cap c) 1000) [] (cc_events c) lin_budget).
 
 Definition cdiff_case (c : ccase) : bool :=
   if cc_hung c || (lin_limit <? length (cc_events c)) then false
-  else negb (lin 400 (init (cc_cap c) 1000) [] (cc_events c)).
+  else match lin_case c with LNo => true | _ => false end.
 
 Definition cdiffs (l : list ccase) := bad_idx cdiff_case l.
 Definition cmons (l : list ccase) :=
